@@ -45,6 +45,8 @@ JudgeFault(b, e) ==
        C07_claim_pays_in_full_or_fails |-> G(b.kind = "fm_claim_two_denoms" /\ inside, ~e.ok \/ e.post.bal[b.sender] = b.post.bal[b.sender]),
        C06_failed_claim_keeps_the_rewards_claimable |-> G(b.kind = "fm_claim_two_denoms" /\ inside /\ e.retry.done,
                                                          e.retry.ok /\ e.retry.post.bal[b.sender] = b.post.bal[b.sender]),
+       \* the penalty of an emergency exit is paid out in full or the exit does not happen: no share may stay behind
+       C09_emergency_exit_pays_every_share_or_fails |-> G(b.kind = "fm_emergency_two_owners" /\ inside, ~e.ok \/ SameState(e.post, b.post)),
        C14_single_asset_deposit_all_or_nothing |-> G(b.single /\ inside, ~e.ok /\ e.digest_same /\ ~e.post.pm_buffer),
        C14_single_asset_no_residue_after_failure |-> G(b.single /\ inside /\ e.retry.done, e.retry.ok /\ SameState(e.retry.post, b.post) /\ ~e.retry.post.pm_buffer) ]
 
